@@ -64,6 +64,12 @@ def least_squares(jacobian, data, weights, damping=None, copy_jacobian=False):
     jacobian = scaler.fit_transform(jacobian)
     if damping is None:
         regr = LinearRegression(fit_intercept=False)
+        # scikit-learn >= 1.9 passes "tol" (default 1e-6) as the relative
+        # singular value cutoff of scipy.linalg.lstsq, which truncates the
+        # (often poorly conditioned) exact interpolation systems. Restore the
+        # cutoff that LAPACK and older scikit-learn versions use.
+        if "tol" in regr.get_params():
+            regr.set_params(tol=max(jacobian.shape) * np.finfo(jacobian.dtype).eps)
     else:
         regr = Ridge(alpha=damping, fit_intercept=False)
     regr.fit(jacobian, np.ravel(data), sample_weight=weights)
